@@ -30,6 +30,23 @@ def aggs(facts, adt):
 ENUM_VALUE = {'Buzhash': 0, 'Rollsum': 1, 'FixedSize': 2}
 
 
+def owner_family(facts, pid):
+    """a function body and all closures nested in it (by parent chain)"""
+    root = pid.split('::{closure')[0]
+    out = []
+    for b in facts.bodies.values():
+        x = b
+        d = 0
+        while x is not None and d < 12:
+            if x.id == pid or x.id == root:
+                out.append(b.id)
+                break
+            par = x.raw.get('parent')
+            x = facts.bodies.get(par) or facts.original.get(par) if par else None
+            d += 1
+    return sorted(set(out))
+
+
 def direct_calls_of(facts, T, closure):
     """[(calling body, [argument terms])] for direct calls `f(a, b)` of a local closure"""
     out = []
@@ -539,6 +556,56 @@ def run(facts, cg):
     if trunc_terms and rec_terms and trunc_terms != rec_terms:
         finding('-', 'hash-length-mismatch', 'the chunk_hash_length recorded in the dictionary is not the length the stored hashes are truncated to')
     # (the two pipelines need not have the same stages: each is checked against the obligations on its own)
+    # ---------------------------------------------------------------- the index a new unique chunk gets
+    # rebuild_order refers to descriptors by position: the index recorded for a chunk seen for the first time is the number of
+    # unique chunks seen before it - a counter advanced exactly when the table grows, or the size of the table itself - never the
+    # number of source chunks (which runs ahead as soon as one chunk repeats)
+    n_ins = 0
+    for pid in desc_bodies:
+        fam = owner_family(facts, pid)
+        for cid in fam:
+            c = facts.bodies[cid]
+            if c.raw['kind'] != 'Closure':
+                continue
+            for bi, t in c.calls():
+                if 'q' not in t['callee']:
+                    continue
+                q = callee_q(t)
+                val = None
+                if q.endswith('HashMap::insert') and len(t['args']) >= 3:
+                    val = t['args'][2]
+                elif q.endswith(('Entry::or_insert', 'Entry::or_insert_with')) and len(t['args']) >= 2:
+                    val = t['args'][1]
+                if val is None:
+                    continue
+                vty = c.lty(val['pl']['l']) if val['k'] in ('copy', 'move') else {}
+                if vty.get('k') not in ('uint', 'int'):
+                    continue
+                n_ins += 1
+                term = simplify(T.of_operand(c, val))
+                ok = False
+                why = show(term)[:80]
+                if has_call(term, 'HashMap::len'):
+                    ok = True
+                elif term[0] == 'field' and isinstance(term[1], tuple) and term[1][0] == 'env':
+                    # a captured counter: advanced by one in this closure, on the way of the insert
+                    incs = 0
+                    for cbi in c.live:
+                        for st in c.blocks[cbi]['stmts']:
+                            if st['k'] == 'assign' and st['pl']['p'] and st['pl']['l'] == 1 and st['pl']['p'][-1]['k'] in ('field', 'deref'):
+                                fidx = [p_['i'] for p_ in st['pl']['p'] if p_['k'] == 'field']
+                                if fidx and fidx[0] == term[2]:
+                                    vt = simplify(T.of_rvalue(c, st['rv'], 0))
+                                    if vt[0] == 'binop' and vt[1] == 'Add' and ('const', 1) in (vt[2], vt[3]):
+                                        incs += 1
+                    ok = incs == 1
+                    why = 'captured counter with %d increments' % incs
+                instances.append({'rule': 'R-DICT-WIRING(order-index)', 'function': c.q, 'at': t['loc'], 'value': why, 'ok': ok})
+                if not ok:
+                    finding(facts.bodies[pid].q, 'order-index', 'the index recorded for a chunk seen for the first time is %s, not a count of unique chunks: after the first '
+                            'repeated chunk every new chunk gets an index that is too high' % why)
+    if n_ins < 2:
+        finding('-', 'floor-order-index', 'expected the de-duplication table insert of both writers, found %d (cannot decide)' % n_ins)
     return instances, findings
 
 
